@@ -42,6 +42,11 @@ def to_json_cases():
         ("Value.is_instance(int, 'a')", lambda: C.Value.is_instance(int, "a")),
         ("Value(callables.in_range, lower=1, upper=2)", lambda: C.Value(calls.in_range, lower=1, upper=2)),
         ("Value(callables.truthy)", lambda: C.Value(calls.truthy)),
+        ("ValueDataType.in_((int, str))", lambda: C.ValueDataType.in_((int, str))),
+        ("KeyDataType.not_in(())", lambda: C.KeyDataType.not_in(())),
+        ("ValueDataType.equal_to((int,))", lambda: C.ValueDataType.equal_to((int,))),
+        ("ValueDataType.in_([(int,)])", lambda: C.ValueDataType.in_([(int,)])),
+        ("Value.in_((1, 'a'))", lambda: C.Value.in_((1, "a"))),
     ]
     for text, mk in raw:
         o = mk()
@@ -62,6 +67,12 @@ def parse_cases():
         {"value.items_contain": {"\\path": 1}}, {"value.items_contain": {"\\path": 1, "b": 2}},
         {"value.items_contain": {"a\\pathb": 1}}, {"value.in": [{"\\path": ["a"]}, {"path": ["a"]}]},
         {"value.in_range": {"lower": 1, "upper": 5, "\\path": 2}},
+        {"value.dtype.in": ("int", "str")}, {"value.type.not_in": ("int",)}, {"value.dtype.equal_to": ("int",)}, {"key.dtype.in": (int, "str")},
+        {"value.is_instance": ("int", "str")}, {"value.dtype.in": ["int", ("str",)]},
+        {"value.in": ({"path": 5},)}, {"value.in": ({"path.first": ["a"]}, 7)}, {"value.in_range": ({"path": ["a"]}, 10)},
+        {"value.in": ({"path": ["a"]}, {"\\path": 1})}, {"value.equal_to": {"path.length.dtype": ["a"]}},
+        {"value.equal_to": {"path.first.last": [{"type": "map_value"}]}}, {"value.equal_to": {"path.all.all": [{"type": "list_value"}, "a"]}},
+        {"value.equal_to": {"path.any": [{"type": "list_value"}]}}, {"value.equal_to": {"path.length.any": [{"type": "map_value"}]}},
     ]
     for sp in conds:
         c = _case("corner_parse_cond", {"spec": repr(sp)}, f"from valida.conditions import *\nprint(ConditionLike.from_spec({sp!r}))",
@@ -71,6 +82,11 @@ def parse_cases():
     parts = [
         {"type": "map_value", "label": None}, {"type": "list_value", "label": None, "index": 0}, {"type": "map_value", "label": ""},
         {"type": "map_value", "label": 0}, {"label": None}, {"type": "map_or_list_value", "key": "a", "label": None},
+        {"index": 5, "key": {"value.eq": 1}}, {"key": 5, "index": {"value.eq": 1}}, {"index.foo": 1, "key": 5},
+        {"type": "map_value", "key": 5, "zzz": 1}, {"condition": {"value.foo": 1}, "type": "nope"}, {"type": "list_value", "value": {"key.eq": 1}, "index": "a"},
+        {"type": "map_value", "values": 1}, {"type": "map_value", "value_": 1}, {"type": "map_value", "valuex.eq": 1}, {"type": "map_value", "key_": 1},
+        {"type": "list_value", "index0": 1}, {"type": "map_value", "value": None}, {"type": "map_value", "key": None}, {"type": "list_value", "index": None},
+        {"key": None, "index": None}, {"condition": None, "list_condition": None, "map_condition": None}, {"type": "map_value", "value": None, "key.eq": "a"},
     ]
     for sp in parts:
         c = _case("corner_parse_part", {"spec": repr(sp)}, f"from valida.datapath import *\nprint(ContainerValue.from_spec({sp!r}))",
@@ -89,6 +105,8 @@ def parse_cases():
         {"path": ["a"], "condition": {}, "doc": "a\x1f"}, {"path": ["a"], "condition": {}, "doc": ["\x1c b \x1d", "c\x00"]},
         {"path": ["a"], "condition": {}, "doc": {"description": "  d\x1e", "examples": ["e\x1f\n"]}},
         {"condition": {"value.foo": 1}}, {"path": 5, "condition": {"value.foo": 1}},
+        {"path": ["a"], "condition": {}, "doc": "\x0ba\x0c"}, {"path": ["a"], "condition": {}, "doc": ["\t\rb\r\t", "\x0c"]},
+        {"path": ["a"], "condition": {}, "doc": {"description": "\x0b", "examples": ["\x0c e \x0b", " \n\t "]}},
     ]
     for sp in rules:
         def f(sp=sp):
@@ -192,6 +210,8 @@ def type_fmt_cases():
         ("[ValueLength.in_([1, 2]), ValueLength.in_('ab')]", lambda: [C.ValueLength.in_([1, 2]), C.ValueLength.in_("ab")]),
         ("[Value.in_(5)]", lambda: [C.Value.in_(5)]),
         ("[ValueDataType.equal_to([int])]", lambda: [C.ValueDataType.equal_to([int])]),
+        ("[ValueLength.greater_than('a'), KeyLength.in_range('a', upper='b')]", lambda: [C.ValueLength.greater_than("a"), C.KeyLength.in_range("a", upper="b")]),
+        ("[ValueLength.less_than(\"it's\"), ValueLength.not_in([1, 'x'])]", lambda: [C.ValueLength.less_than("it's"), C.ValueLength.not_in([1, "x"])]),
     ]
     for text, mk in lists:
         cs = mk()
@@ -289,4 +309,109 @@ def validate_cases():
         c.ask(["validate", [enc.enc_rule(o) for o in rules], enc.enc_val(doc)], impl, "validate", make_cmp(False, True))
         c.features.add(("corner", "validate", text[:40]))
         out.append(c)
+    return out
+
+
+def filter_cases():
+    """conditions that are only ever serialised elsewhere, FILTERED here: built directly (arguments that do not fit the
+    callable's signature: Python's binding errors inside the callable's `try`), with an unresolved data-path argument
+    (no source document: the DataPath object itself reaches the callable), reserved / own-parameter keyword names"""
+    from props.c01 import obs_filtered
+    out = []
+    docs = [[1, "a", {"a": 1, "value": 2}, None, [1, 2]], {"a": 1, "b": {"a": 1}, 0: "x"}]
+    mk = [
+        ("Value(callables.equal_to, 1, value=2)", lambda: C.Value(calls.equal_to, 1, value=2)),
+        ("Value(callables.equal_to, 1, 2)", lambda: C.Value(calls.equal_to, 1, 2)),
+        ("Value(callables.equal_to)", lambda: C.Value(calls.equal_to)),
+        ("Value(callables.truthy, 1)", lambda: C.Value(calls.truthy, 1)),
+        ("Value(callables.equal_to, bogus=1)", lambda: C.Value(calls.equal_to, bogus=1)),
+        ("Value(callables.equal_to, 1, trial_datum=2)", lambda: C.Value(calls.equal_to, 1, trial_datum=2)),
+        ("Value(callables.in_range, 1, upper=5)", lambda: C.Value(calls.in_range, 1, upper=5)),
+        ("Value(callables.in_range, lower=1)", lambda: C.Value(calls.in_range, lower=1)),
+        ("Value(callables.keys_contain_any_of, 'a', keys=1)", lambda: C.Value(calls.keys_contain_any_of, "a", keys=1)),
+        ("Value.items_contain(trial_dict=1)", lambda: C.Value.items_contain(trial_dict=1)),
+        ("Value.items_contain(items=1)", lambda: C.Value.items_contain(items=1)),
+        ("Value.keys_contain_all_of('zz', [1])", lambda: C.Value.keys_contain_all_of("zz", [1])),
+        ("Value.keys_contain_all_of('a', [1])", lambda: C.Value.keys_contain_all_of("a", [1])),
+        ("Value.keys_contain(DataPath('a'))", lambda: C.Value.keys_contain(DP.DataPath("a"))),
+        ("Value.in_(DataPath('a'))", lambda: C.Value.in_(DP.DataPath("a"))),
+        ("Value.equal_to(DataPath('a'))", lambda: C.Value.equal_to(DP.DataPath("a"))),
+        ("Value.keys_contain_any_of(DataPath('a'), 'a')", lambda: C.Value.keys_contain_any_of(DP.DataPath("a"), "a")),
+        ("Value.in_([DataPath('a'), 1])", lambda: C.Value.in_([DP.DataPath("a"), 1])),
+        ("Value.less_than(DataPath('a')) | Value.equal_to(1)", lambda: C.Value.less_than(DP.DataPath("a")) | C.Value.equal_to(1)),
+        ("ValueLength.equal_to(DataPath('a'))", lambda: C.ValueLength.equal_to(DP.DataPath("a"))),
+    ]
+    for text, f in mk:
+        try:
+            cond = f()
+        except TypeError:
+            continue
+        for d in docs:
+            c = _case("corner_filter", {"cond": text, "doc": repr(d)},
+                      f"from valida.conditions import *\nfrom valida.datapath import *\nfrom valida import callables\nprint({text}.filter({d!r}).result)",
+                      lambda cond=cond, d=d: ["filter", enc.enc_cond(cond), enc.enc_val(d)],
+                      lambda cond=cond, d=d: obs_filtered(cond.filter(d)), "filter")
+            if c:
+                out.append(c)
+    return out
+
+
+def get_cases():
+    """parts whose `condition=` is a single condition of the foreign kind (possible only through `condition=`; `key=` /
+    `index=` / `value=` refuse foreign kinds), the ANY multiplicity modifier, a second modifier of the same family"""
+    out = []
+    mk = [
+        ("DataPath(MapValue(condition=Index.equal_to(0)))", lambda: DP.DataPath(DP.MapValue(condition=C.Index.equal_to(0))), {0: "x", "a": 1}),
+        ("DataPath(ListValue(condition=Key.equal_to(0)))", lambda: DP.DataPath(DP.ListValue(condition=C.Key.equal_to(0))), ["x", "y"]),
+        ("DataPath(MapOrListValue(condition=Key.equal_to('a')))", lambda: DP.DataPath(DP.MapOrListValue(condition=C.Key.equal_to("a"))), {"a": 1, "b": 2}),
+        ("DataPath(MapOrListValue(condition=Key.equal_to('a')))", lambda: DP.DataPath(DP.MapOrListValue(condition=C.Key.equal_to("a"))), ["a", "b"]),
+        ("DataPath(MapOrListValue(condition=Index.equal_to(1)))", lambda: DP.DataPath(DP.MapOrListValue(condition=C.Index.equal_to(1))), {"a": 1, 1: 2}),
+        ("DataPath('r', MapValue(condition=Index.lt(5) & Value.gt(0)))", lambda: DP.DataPath("r", DP.MapValue(condition=C.Index.less_than(5) & C.Value.greater_than(0))),
+         {"r": {"a": 1, "b": -1}}),
+        ("DataPath(ListValue()).any()", lambda: DP.DataPath(DP.ListValue()).any(), [1, 2, 3]),
+        ("DataPath(MapValue(), 'x').any()", lambda: DP.DataPath(DP.MapValue(), "x").any(), {"a": {"x": 1}, "b": {"y": 2}}),
+        ("DataPath(ListValue()).length().any()", lambda: DP.DataPath(DP.ListValue()).length().any(), [[1], "ab", 3]),
+        ("DataPath(ListValue()).any()", lambda: DP.DataPath(DP.ListValue()).any(), {"a": 1}),
+    ]
+    for text, f, doc in mk:
+        o = enc.outcome(f)
+        if o[0] != "ok":
+            continue
+        p = o[1]
+        for rp in (True, False):
+            c = _case("corner_get", {"path": text, "doc": repr(doc), "return_paths": rp},
+                      f"from valida.conditions import *\nfrom valida.datapath import *\nprint({text}.get_data({doc!r}, return_paths={rp}))",
+                      lambda p=p, doc=doc, rp=rp: ["get", enc.enc_path(p), enc.enc_val(doc), rp],
+                      lambda p=p, doc=doc, rp=rp: enc.enc_val(p.get_data(doc, return_paths=rp)), "get")
+            if c:
+                out.append(c)
+    return out
+
+
+def test_cases():
+    """rules whose condition reads keys / indices (positions in the selection), alone (refused: the selection is a list)
+    and inside combinations (evaluated)"""
+    from props import rules_common as rc
+    out = []
+    mk = [
+        ("Rule(DataPath(ListValue()), Index.equal_to(0))", lambda: Rule(DP.DataPath(DP.ListValue()), C.Index.equal_to(0)), [5, 6]),
+        ("Rule(DataPath('a', ListValue()), Index.less_than(1) & Value.greater_than(3))",
+         lambda: Rule(DP.DataPath("a", DP.ListValue()), C.Index.less_than(1) & C.Value.greater_than(3)), {"a": [5, 1, 7]}),
+        ("Rule(DataPath('a', ListValue()), Value.greater_than(3) | Index.equal_to(1))",
+         lambda: Rule(DP.DataPath("a", DP.ListValue()), C.Value.greater_than(3) | C.Index.equal_to(1)), {"a": [5, 1, 2]}),
+        ("Rule(DataPath(MapValue()), Key.equal_to(0))", lambda: Rule(DP.DataPath(DP.MapValue()), C.Key.equal_to(0)), {"a": 5}),
+        ("Rule(DataPath(MapValue()), KeyLength.equal_to(1))", lambda: Rule(DP.DataPath(DP.MapValue()), C.KeyLength.equal_to(1)), {"a": 5}),
+        ("Rule(DataPath('a'), Index.equal_to(0))", lambda: Rule(DP.DataPath("a"), C.Index.equal_to(0)), {"a": 5}),
+        ("Rule(DataPath('a'), Key.equal_to(0) ^ Value.equal_to(5))", lambda: Rule(DP.DataPath("a"), C.Key.equal_to(0) ^ C.Value.equal_to(5)), {"a": 5}),
+        ("Rule(DataPath(MapValue()), Index.in_([0, 2]) & Value.is_instance(int), cast={str: int})",
+         lambda: Rule(DP.DataPath(DP.MapValue()), C.Index.in_([0, 2]) & C.Value.is_instance(int), cast={str: int}), {"a": "1", "b": 2, "c": "x"}),
+    ]
+    for text, f, doc in mk:
+        rule = f()
+        c = _case("corner_test", {"rule": text, "doc": repr(doc)},
+                  rc.PY_HEAD + f"rt = {text}.test({doc!r})\nprint(rt.is_valid, [f.path for f in rt.failures])",
+                  lambda rule=rule, doc=doc: ["test", enc.enc_rule(rule), enc.enc_val(doc)],
+                  lambda rule=rule, doc=doc: rc.obs_rule_test(rule.test(copy.deepcopy(doc))), "test")
+        if c:
+            out.append(c)
     return out
